@@ -156,4 +156,11 @@ PROPS = {
         "rule": 'histories of Add/AddWithSpan/Upsert/Put/HasOrAdd/Remove/Sweep/sleep on TimeCache, peerTimeCache and timeCacher with every call bracketed by monotonic clock readings fed to the model (two exact models bound the unknown reading: must/may); spans 40-300 ms (1 s for timeCacher); a liveness probe for the self-sweeper; distinct = distinct (operation kind, canonical output) pairs',
         "assumptions": ['clock readings are only known up to the bracket taken around each call; the model answers three-valued and the implementation must be inside', 'time.Now is monotone'],
     },
+    "C11": {
+        "theorems": [],
+        "modules": ["SV.Props.C11"],
+        "runs": [{"component": "concp", "thorough_seeds": 2}],
+        "rule": "leveldb.DB and SerialDB, batch sizes 1-4: (1) forced schedules over 2-3 goroutines parked at every block boundary (verifPoint hooks) and replayed on the Lean block-interleaving model; (2) window probes: one operation parked at a hook (incl. inside the flush hand-over and between the batch reads) while probes run, history checked by porcupine; (3) randomised stress with delay injection at the hooks, checked by porcupine; distinct = distinct (operation kind, output) pairs",
+        "assumptions": ["the all-schedules theorem is about the block-interleaving model (critical sections as atomic blocks, block structure tied to the source by regenerated facts and by forced schedules); Go memory-model races inside a block, fairness and goleveldb's internal concurrency are outside the model", "porcupine (linearizability checker) is a search aid for failing inputs, not a proof"],
+    },
 }
